@@ -144,9 +144,10 @@ def h_stage1(sx):
                                             "fired": [list(map(str, f)) for f in w.fault_fired]})
 
     obs = w.observable()
-    if "rerun" in checks and not faulted:
-        # the same model objects run again with a second, independent outcome vector
-        w.second_run(reset=bool(w.opts.get("rerun_reset")))
+    if "rerun" in checks and (not faulted or w.opts.get("fault_first_run_only")):
+        # the same model objects run again with a second, independent outcome vector (optionally on the SAME runner
+        # object, and after a first run in which a hook raised)
+        w.second_run(reset=bool(w.opts.get("rerun_reset")), same_runner=bool(w.opts.get("rerun_same_runner")))
         sx.check(w.escaped is None, "C02.rerun.no-exception", detail=lambda m: repr(w.escaped))
         ex2 = runspec(w, flags)
         calls2 = [tuple(c) for c in w.calls]
